@@ -535,7 +535,81 @@ def schedule(t, size, tier):
     skipped = len(inputs) - len(exps)
     if small:
         ops.extend([("process", s) for s in reversed(inputs) if s in exps])
+    # the caller-mutates-the-result history, two rounds: parse, check that no mutable container of the result
+    # is shared (inside the result / with an earlier result), then modify every container in place
+    ops.extend([("mutate", s) for s in MUT_INPUTS if s in exps] * 2)
     return ops, exps, absorbed, skipped
+
+
+MUT_INPUTS = ["", "a", "b", "ab"]
+SENTINEL = "<put here by the caller>"
+
+
+class Session(object):
+    """What a caller keeps from earlier parses on one parser object: the results (alive, so that object
+    identities stay meaningful) and the identities of their mutable containers."""
+
+    def __init__(self):
+        self.kept = []
+        self.ids = set()
+
+
+def mutable_ids(v, out):
+    """ids of the mutable containers (lists, dicts) reachable in a result, with multiplicity."""
+    if isinstance(v, list):
+        out.append(id(v))
+        for x in v:
+            mutable_ids(x, out)
+    elif isinstance(v, tuple):
+        for x in v:
+            mutable_ids(x, out)
+    elif isinstance(v, dict):
+        out.append(id(v))
+        for x in v.values():
+            mutable_ids(x, out)
+    elif hasattr(v, "lineno") and hasattr(v, "value"):
+        mutable_ids(v.value, out)
+
+
+def mutate_in_place(v):
+    if isinstance(v, list):
+        for x in v:
+            mutate_in_place(x)
+        v.append(SENTINEL)
+    elif isinstance(v, tuple):
+        for x in v:
+            mutate_in_place(x)
+    elif isinstance(v, dict):
+        for x in list(v.values()):
+            mutate_in_place(x)
+        v[SENTINEL] = SENTINEL
+    elif hasattr(v, "lineno") and hasattr(v, "value"):
+        mutate_in_place(v.value)
+
+
+def aliasing(value, session):
+    """The aliasing oracle: a result is made of NEW mutable objects - none occurs twice inside it and none
+    was part of an earlier result (values of different matches are different objects; nothing in the
+    alphabet asks for a shared one).  -> None or a description.  Registers the result in the session."""
+    ids = []
+    mutable_ids(value, ids)
+    problem = None
+    if len(set(ids)) != len(ids):
+        problem = "the same mutable object occurs twice inside one result"
+    elif session.ids.intersection(ids):
+        problem = "a mutable object that was part of an earlier result is handed out again"
+    session.ids.update(ids)
+    session.kept.append(value)
+    return problem
+
+
+def after_op(via, got, session):
+    """Second half of a "mutate" operation (after the result has been compared with the reference)."""
+    if via != "mutate" or got is peg.FAIL or got is HANG:
+        return None
+    problem = aliasing(got[1], session)
+    mutate_in_place(got[1])
+    return problem
 
 
 def hang_explained_by_leading_separator(t, s):
@@ -548,7 +622,7 @@ def hang_explained_by_leading_separator(t, s):
 
 
 def run_op(parser, via, s):
-    return run_process(parser, s) if via == "process" else run_call(parser, s)
+    return run_call(parser, s) if via == "call" else run_process(parser, s)
 
 
 def replay_history(hist, upto):
@@ -562,9 +636,12 @@ def replay_history(hist, upto):
         try:
             with cpu_guard():
                 parser = build(t)
+                session = Session()
                 for via, s in ops:
-                    if run_op(parser, via, s) is HANG and not hang_explained_by_leading_separator(t, s):
+                    got = run_op(parser, via, s)
+                    if got is HANG and not hang_explained_by_leading_separator(t, s):
                         break
+                    after_op(via, got, session)
         except BudgetExceeded:
             pass
 
@@ -586,17 +663,23 @@ def check_term_case(case):
     try:
         with cpu_guard():
             parser = build(t)
+            session = Session()
             for pv, q in case.get("prior", []):
                 if peg.evaluate(t, q) is not peg.LOOP:
-                    run_op(parser, pv, q)
+                    after_op(pv, run_op(parser, pv, q), session)
             got = run_op(parser, via, s)
     except BudgetExceeded:
         got = HANG
-    with_pos = via == "process"
-    if agree(exp, got, with_pos):
-        return []
+    with_pos = via != "call"
     feats = {"via": via, "after_earlier_calls_on_the_same_object": bool(case.get("prior")),
+             "after_the_caller_modified_earlier_results_in_place": any(pv == "mutate" for pv, _ in case.get("prior", [])),
              "after_earlier_grammars_in_the_same_process": bool(case.get("history"))}
+    if agree(exp, got, with_pos):
+        shown = describe(got)
+        problem = after_op(via, got, session)
+        if problem:
+            return [("combinators:fresh-mutable-values", "every list inside a result is a new object", {"problem": problem, "result": shown}, feats)]
+        return []
     if got is HANG:
         clause = "combinators:terminates"
     elif exp is peg.FAIL:
@@ -839,6 +922,11 @@ def check_json_case(case):
     if failed:
         got = "rejected: " + " ".join(str(got).split())[:120]
     elif strict_eq(got, exp):
+        ids = []
+        mutable_ids(got, ids)
+        if len(set(ids)) != len(ids):       # json.loads builds a new list / dict for every container
+            return [("json:fresh-mutable-values", {"text": text, "containers": "pairwise distinct objects"},
+                     {"problem": "the same list or dict object occurs twice inside one result", "result": jsonable(got)}, feats)]
         return []
     feats["json_contains_empty_string"] = facts["empty_string"]
     if failed:
@@ -850,6 +938,48 @@ def check_json_case(case):
         feats["accepted_once_listed_triggers_are_removed"] = rtext != text and guarded(loads, rtext)[0] == "ok"
         return [("json:accepts-documented-subset", {"text": text, "value": exp}, got, feats)]
     return [("json:value-equals-json.loads", {"text": text, "value": exp}, jsonable(got), feats)]
+
+
+# ---- the caller modifies what it got, then parses again (part "jsonmut") --------------------------
+
+JM_DOCS = ["[]", "{}", "[[],[]]", '{"a":[],"b":[]}', "[{},{}]", "[[],{}]", "[[[]]]", '{"a":{}}', "[ ]", "{ }",
+           "[0]", "[[0],[0]]", '{"a":[0]}', "[[],[0]]", '""', "7"]
+
+
+def jm_steps():
+    return [(entry, text) for _round in (0, 1) for text in JM_DOCS for entry in ("loads", "load")]
+
+
+def check_json_mut_case(case):
+    """case = {"kind":"jsonmut","step":n}: steps 0..n of jm_steps() on the module's grammar object, in this
+    process; after every step the caller modifies every list / dict of the result in place.  Step n is
+    judged: same value as json.loads, and only new list / dict objects (json.loads never hands out a
+    container twice)."""
+    steps = jm_steps()
+    session = Session()
+    out = []
+    for i, (entry, text) in enumerate(steps[:case["step"] + 1]):
+        status, got = guarded(j_entry(entry), text)
+        if i == case["step"]:
+            exp = json.loads(text)
+            feats = {"entry": entry, "after_the_caller_modified_earlier_results_in_place": i > 0}
+            if status == "hang":
+                return [("json:terminates", {"text": text}, "no result within %d CPU-s" % DOC_GUARD_S, feats)]
+            if status == "exc":
+                return [("json:accepts-documented-subset", {"text": text, "value": exp},
+                         "rejected: " + " ".join(str(got).split())[:120], feats)]
+            if not strict_eq(got, exp):
+                out.append(("json:value-equals-json.loads", {"text": text, "value": exp}, jsonable(got), feats))
+            else:
+                problem = aliasing(got, session)
+                if problem:
+                    out.append(("json:fresh-mutable-values", {"text": text, "containers": "new objects"},
+                                {"problem": problem, "result": jsonable(got)}, feats))
+            return out
+        if status == "ok":
+            aliasing(got, session)
+            mutate_in_place(got)
+    return out
 
 
 # ---- further JSON families (part "jsonx") ------------------------------------------------------
@@ -1314,7 +1444,7 @@ def units(tier, seed):
     us += [{"part": "taglang", "lo": lo, "hi": min(nt, lo + tper)} for lo in range(0, nt, tper)]
     ntx = len(t_extra_asts(tier))
     us += [{"part": "tagx", "lo": lo, "hi": min(ntx, lo + 350)} for lo in range(0, ntx, 350)]
-    us += [{"part": "tagedit"}]
+    us += [{"part": "tagedit"}, {"part": "jsonmut"}]
     return us
 
 
@@ -1415,21 +1545,26 @@ def _terms_hot(unit, tier):
         res.evals += len(exps)
         res.nontrivial += sum(1 for s in exps if s and absorbed[s])
         ncall = sum(1 for o in ops if o[0] == "call")
+        nmut = sum(1 for o in ops if o[0] == "mutate")
         res.stat("call_evaluations", ncall)
-        res.stat("second_pass_evaluations", len(ops) - len(exps) - ncall)
+        res.stat("mutate_between_parses_evaluations", nmut)
+        res.stat("second_pass_evaluations", len(ops) - len(exps) - ncall - nmut)
         hung = False
         k = 0
         mine = []
         try:
             with cpu_guard():
                 parser = build(t)
+                session = Session()
                 for k, (via, s) in enumerate(ops):
-                    if via == "process":
-                        got = run_process(parser, s)
-                        ok = agree(exps[s], got)
-                    else:
+                    if via == "call":
                         got = run_call(parser, s)
                         ok = agree(exps[s], got, False)
+                    else:
+                        got = run_process(parser, s)
+                        ok = agree(exps[s], got)
+                        if via == "mutate" and after_op(via, got, session):
+                            ok = False
                     if not ok:
                         mine.append(k)
                         if got is HANG and not hang_explained_by_leading_separator(t, s):
@@ -1565,6 +1700,9 @@ def stream_cases(unit, tier):
     elif part == "tagedit":
         for case in t_edit_cases(tier):
             yield case, True, "tagedit", None
+    elif part == "jsonmut":
+        for n in range(len(jm_steps())):
+            yield {"kind": "jsonmut", "step": n}, n > 0, "jsonmut", None
     else:
         raise ValueError(part)
 
@@ -1679,7 +1817,8 @@ def replay(case):
     return [{"clause": c, "case": case, "expected": e, "observed": o, "features": f} for c, e, o, f in vio]
 
 
-CHECKERS.update({"json": check_json_case, "jsonedit": check_json_edit_case, "tag": check_tag_case, "tagedit": check_tag_edit_case})
+CHECKERS.update({"json": check_json_case, "jsonedit": check_json_edit_case, "jsonmut": check_json_mut_case,
+                 "tag": check_tag_case, "tagedit": check_tag_edit_case})
 
 
 TECHNIQUE = ("bounded exhaustive enumeration of grammar terms x inputs (stateless exploration of the real combinators, one "
